@@ -24,6 +24,7 @@ import (
 	"go/token"
 	"os"
 	"path/filepath"
+	"regexp"
 	"sort"
 	"strings"
 )
@@ -111,6 +112,8 @@ func (k *c12Sk) call(c *ast.CallExpr) {
 		return
 	}
 	switch sel.Sel.Name {
+	case "TryLock":
+		k.emit("TryLock")
 	case "Lock", "Unlock":
 		if c12SelTail(sel.X) == "MutexesMutex" {
 			if sel.Sel.Name == "Lock" {
@@ -127,6 +130,12 @@ func (k *c12Sk) call(c *ast.CallExpr) {
 		}
 		if id, ok := sel.X.(*ast.Ident); ok && k.roles[id.Name] == "M" {
 			k.emit("M." + sel.Sel.Name)
+			return
+		}
+		if id, ok := sel.X.(*ast.Ident); ok {
+			// a local value that is locked: the named mutex, however it was obtained
+			_ = id
+			k.emit("M?." + sel.Sel.Name)
 			return
 		}
 		k.emit("?." + sel.Sel.Name)
@@ -153,9 +162,16 @@ func (k *c12Sk) stmt(s ast.Stmt) {
 	case *ast.AssignStmt:
 		// name := …Children[0].Token.Val
 		if len(x.Lhs) == 1 && len(x.Rhs) == 1 {
-			if id, ok := x.Lhs[0].(*ast.Ident); ok && c12SelTail(x.Rhs[0]) == "Val" {
+			if id, ok := x.Lhs[0].(*ast.Ident); ok && c12IsNameToken(x.Rhs[0]) {
 				k.roles[id.Name] = "N"
 				return
+			}
+			// a plain copy keeps the role: key := name
+			if id, ok := x.Lhs[0].(*ast.Ident); ok {
+				if src, ok := x.Rhs[0].(*ast.Ident); ok && k.roles[src.Name] != "" && x.Tok == token.DEFINE {
+					k.roles[id.Name] = k.roles[src.Name]
+					return
+				}
 			}
 		}
 		// v, ok := table[key]
@@ -615,10 +631,30 @@ func c12OrderFacts(sk []string) []c12Fact {
 	// 4. blocking operations are outside the table sections
 	bl, bd := idx(sk, is("M.Lock")), idx(sk, is("body"))
 	inside := idx(sk, func(t string) bool {
-		return (isSec(t) && (strings.Contains(t, "M.Lock") || strings.Contains(t, "body") || strings.Contains(t, "M.Unlock"))) ||
-			t == "T.Lock-without-Unlock" || t == "T.Unlock-without-Lock"
+		return isSec(t) && (strings.Contains(t, "M.Lock") || strings.Contains(t, "body") || strings.Contains(t, "M.Unlock"))
 	})
+	// 5. the key of every table access is the block's name token itself (N): two blocks exclude each
+	// other exactly when they carry the same name
+	keyRe := regexp.MustCompile(`(?:get|set) [MO]\[([^\]]*)\]`)
+	keysSeen, keysOK := false, true
+	for _, t := range sk {
+		for _, m := range keyRe.FindAllStringSubmatch(t, -1) {
+			keysSeen = true
+			if m[1] != "N" {
+				keysOK = false
+			}
+		}
+	}
+	out = append(out, c12Fact{"the key of every table access is the name token", tv(keysSeen, keysOK)})
+	malformed := idx(sk, func(t string) bool { return t == "T.Lock-without-Unlock" || t == "T.Unlock-without-Lock" })
 	switch {
+	case malformed >= 0:
+		// the sections are not straight-line code (each branch with its own Unlock …): this
+		// source-order reading of the skeleton cannot tell
+		for i := range out[:3] {
+			out[i].kind = "unknown"
+		}
+		out = append(out, c12Fact{"M.Lock, M.Unlock and the body outside MutexesMutex sections", "unknown"})
 	case inside >= 0:
 		out = append(out, c12Fact{"M.Lock, M.Unlock and the body outside MutexesMutex sections", "false"})
 	default:
@@ -724,6 +760,24 @@ func c12ReleaseDeferred() ([]c12Fact, error) {
 	return out, nil
 }
 
+// c12IsNameToken recognises <…>.Children[0].Token.Val — the name written after `mutex`.
+func c12IsNameToken(e ast.Expr) bool {
+	v, ok := e.(*ast.SelectorExpr)
+	if !ok || v.Sel.Name != "Val" {
+		return false
+	}
+	t, ok := v.X.(*ast.SelectorExpr)
+	if !ok || t.Sel.Name != "Token" {
+		return false
+	}
+	ix, ok := t.X.(*ast.IndexExpr)
+	if !ok || c12SelTail(ix.X) != "Children" {
+		return false
+	}
+	lit, ok := ix.Index.(*ast.BasicLit)
+	return ok && lit.Value == "0"
+}
+
 // c12IsHook recognises verifhook.At(…) (an empty function unless built with the tag verif).
 func c12IsHook(c *ast.CallExpr) bool {
 	sel, ok := c.Fun.(*ast.SelectorExpr)
@@ -732,6 +786,53 @@ func c12IsHook(c *ast.CallExpr) bool {
 	}
 	id, ok := sel.X.(*ast.Ident)
 	return ok && id.Name == "verifhook"
+}
+
+// c12Acquisition: how mutexRuntime.Eval acquires the named mutex — independent of the shape of the
+// function: every call `x.Lock()` / `x.TryLock()` on a plain local identifier anywhere in Eval
+// (any statement kind, function literals included) is counted. One Lock and no TryLock = true;
+// any TryLock = refuted (polling / a bounded wait is not mutual exclusion and does not queue
+// later entrants); no Lock at all (moved into a helper) = unknown.
+func c12Acquisition() c12Fact {
+	what := "the named mutex is acquired by one blocking Lock()"
+	fset := token.NewFileSet()
+	f, err := parser.ParseFile(fset, filepath.Join(repoDir(), "interpreter", "rt_statements.go"), nil, 0)
+	if err != nil {
+		return c12Fact{what, "unknown"}
+	}
+	for _, d := range f.Decls {
+		fd, ok := d.(*ast.FuncDecl)
+		if !ok || fd.Name.Name != "Eval" || fd.Recv == nil || len(fd.Recv.List) != 1 || fd.Body == nil {
+			continue
+		}
+		st, ok := fd.Recv.List[0].Type.(*ast.StarExpr)
+		if !ok {
+			continue
+		}
+		if id, ok := st.X.(*ast.Ident); !ok || id.Name != "mutexRuntime" {
+			continue
+		}
+		locks, tries := 0, 0
+		ast.Inspect(fd.Body, func(n ast.Node) bool {
+			if c, ok := n.(*ast.CallExpr); ok {
+				if c12LocalCall(c, "Lock") != "" {
+					locks++
+				}
+				if sel, ok := c.Fun.(*ast.SelectorExpr); ok && sel.Sel.Name == "TryLock" {
+					tries++
+				}
+			}
+			return true
+		})
+		switch {
+		case tries > 0:
+			return c12Fact{what, "false"}
+		case locks == 1:
+			return c12Fact{what, "true"}
+		}
+		return c12Fact{what, "unknown"}
+	}
+	return c12Fact{what, "unknown"}
 }
 
 func c12LocalCall(c *ast.CallExpr, method string) string {
@@ -940,7 +1041,7 @@ func c12Tool(args []string) int {
 		tuf = append(tuf, c12Fact{u.where, u.kind})
 	}
 	c12WriteFacts(&sb, "tableUses", "every use of the selectors Mutexes / MutexeOwners (and of their aliases) in the whole tree: (where, guarded|unguarded|unknown)", tuf, err)
-	c12WriteFacts(&sb, "orderFacts", "orders and section boundaries read off the skeleton of mutexRuntime.Eval: (what, true|false|unknown)", c12OrderFacts(sk), nil)
+	c12WriteFacts(&sb, "orderFacts", "orders and section boundaries read off the skeleton of mutexRuntime.Eval: (what, true|false|unknown)", append(c12OrderFacts(sk), c12Acquisition()), nil)
 	rel, err := c12ReleaseDeferred()
 	c12WriteFacts(&sb, "releases", "every Lock / non-deferred Unlock of a local mutex value in mutexRuntime.Eval: (what, ok|bad|unknown)", rel, err)
 	cw, err := c12CounterWrites()
@@ -958,11 +1059,50 @@ func c12Tool(args []string) int {
 	}
 	sb.WriteString("]\n\n")
 	sb.WriteString("/-- the value the pool's constructor gives the id counter (none = cannot tell) -/\n")
-	if v := c12CounterInit(); v >= 0 {
-		sb.WriteString(fmt.Sprintf("def idCounterInit : Option Nat := some %d\n\n", v))
+	initV := c12CounterInit()
+	if initV >= 0 {
+		sb.WriteString(fmt.Sprintf("def idCounterInit : Option Nat := some %d\n\n", initV))
 	} else {
 		sb.WriteString("def idCounterInit : Option Nat := none\n\n")
 	}
+	// the first id HANDED OUT: the initial value if NewThreadID reads before it increments, one
+	// more if it increments first (whether the counter holds the next or the last id is a
+	// matter of representation)
+	first := -1
+	ri, ii := -1, -1
+	for i, t := range ids {
+		if t == "read" && ri < 0 {
+			ri = i
+		}
+		if t == "inc" && ii < 0 {
+			ii = i
+		}
+	}
+	if initV >= 0 && ri >= 0 && ii >= 0 {
+		first = initV
+		if ii < ri {
+			first = initV + 1
+		}
+	}
+	sb.WriteString("/-- the first thread id NewThreadID hands out (none = cannot tell) -/\n")
+	if first >= 0 {
+		sb.WriteString(fmt.Sprintf("def idFirst : Option Nat := some %d\n\n", first))
+	} else {
+		sb.WriteString("def idFirst : Option Nat := none\n\n")
+	}
+	lt, err := c12LiteralTids()
+	if err != nil {
+		lt = []string{"extraction failed"}
+	}
+	sb.WriteString("/-- calls that evaluate ECAL code with an integer literal as thread id (function:literal) -/\n")
+	sb.WriteString("def literalTids : List String := [")
+	for i, x := range lt {
+		if i > 0 {
+			sb.WriteString(", ")
+		}
+		sb.WriteString(fmt.Sprintf("%q", x))
+	}
+	sb.WriteString("]\n\n")
 	sb.WriteString("end Ecal.Gen.C12\n")
 	if len(args) > 1 {
 		if err := os.WriteFile(args[1], []byte(sb.String()), 0644); err != nil {
